@@ -527,3 +527,29 @@ func (f *Facts) Dump() []string {
 	sort.Strings(out)
 	return out
 }
+
+// Refine enumerates the truth assignments of the given atoms that the facts leave open and returns one
+// extended fact base per consistent assignment (decision-table rows below one evaluated path).
+func (f *Facts) Refine(ts *Terms, atoms ...*T) []*Facts {
+	out := []*Facts{f}
+	for _, a := range atoms {
+		if a == nil {
+			continue
+		}
+		var next []*Facts
+		for _, g := range out {
+			if g.Truth(ts, a) != triU {
+				next = append(next, g)
+				continue
+			}
+			for _, v := range []bool{true, false} {
+				h := g.Clone()
+				if h.Assume(ts, a, v) {
+					next = append(next, h)
+				}
+			}
+		}
+		out = next
+	}
+	return out
+}
